@@ -35,8 +35,12 @@ func init() {
 			"a number keeps its value when the parsed number denotes the same decimal value (an int64 may come back as an equal json.Number; float64 by ==)",
 		},
 		Findings: map[string]func(v *mon.Violation) bool{
-			"senBareSignString":    func(v *mon.Violation) bool { return strCase(v, func(s string) bool { return s != "" && (s[0] == '+' || s[0] == '-') && bareSafe(s[1:]) }) },
-			"senBareKeywordString": func(v *mon.Violation) bool { return strCase(v, func(s string) bool { return s == "true" || s == "false" || s == "null" }) },
+			"senBareSignString": func(v *mon.Violation) bool {
+				return strCase(v, func(s string) bool { return s != "" && (s[0] == '+' || s[0] == '-') && bareSafe(s[1:]) })
+			},
+			"senBareKeywordString": func(v *mon.Violation) bool {
+				return strCase(v, func(s string) bool { return s == "true" || s == "false" || s == "null" })
+			},
 		},
 		Floors: func(tier string, cover map[string]int64, evals int64) []string {
 			var out []string
@@ -229,7 +233,10 @@ var writers = []writer{
 		err := sen.Write(&b, v, &o2)
 		return b.Bytes(), err
 	}},
-	{"sen.Writer.SEN", func(v any, o *ojg.Options, _ int) ([]byte, error) { w := sen.Writer{Options: *o}; return []byte(w.SEN(v)), nil }},
+	{"sen.Writer.SEN", func(v any, o *ojg.Options, _ int) ([]byte, error) {
+		w := sen.Writer{Options: *o}
+		return []byte(w.SEN(v)), nil
+	}},
 	{"sen.Writer.MustSEN", func(v any, o *ojg.Options, _ int) ([]byte, error) {
 		w := sen.Writer{Options: *o}
 		return append([]byte{}, w.MustSEN(v)...), nil
@@ -387,6 +394,50 @@ func run(c *mon.Ctx) {
 			}
 		}
 		c.Distinct(s)
+	}
+	// multi-byte strings by lead byte: every UTF-8 lead byte class, in particular 0xEF (the first byte of a
+	// byte order mark), as the first character of strings of 1-3 characters, in the four contexts
+	k := 0
+	for _, first := range []rune{0x80, 0xe9, 0x7ff, 0x800, 0x20ac, 0xd7ff, 0xe000, 0xf000, 0xfeff, 0xff21, 0xff71, 0xfffd, 0xffff, 0x10000, 0x1f600, 0x10ffff} {
+		for _, rest := range []string{"", "x", "ＢＣ", "éz", " y", "»¿"} {
+			k++
+			if !c.Mine(k) {
+				continue
+			}
+			c.Cover("src:lead-byte-strings")
+			str([]byte(string(first)+rest), false)
+		}
+	}
+	// deep nesting: beyond the depth for which the writers have prepared indentation, with members too wide
+	// to be written on one line
+	for i, depth := range []int{60, 126, 127, 128, 129, 130, 200, 300} {
+		if !c.Mine(i) {
+			continue
+		}
+		for _, leafKind := range []string{"pair", "wide", "map"} {
+			var v any
+			switch leafKind {
+			case "pair":
+				v = []any{"x", int64(3)}
+			case "wide":
+				v = []any{strings.Repeat("long string ", 12), int64(3), "y", strings.Repeat("w", 90)}
+			default:
+				v = map[string]any{"a": "x", "b": int64(3), "c": strings.Repeat("long value ", 12)}
+			}
+			for d := 0; d < depth; d++ {
+				if d%2 == 0 {
+					v = []any{v}
+				} else {
+					v = map[string]any{"k": v}
+				}
+			}
+			c.Cover("src:deep-nesting")
+			for wi := range writers {
+				for _, mask := range []int{0, 1, 5, 15} {
+					ck.roundTrip(v, wi, mask, map[string]any{"tree": fmt.Sprintf("%s leaf under %d alternating containers", leafKind, depth)}, "deep/"+leafKind)
+				}
+			}
+		}
 	}
 	// numbers
 	r := c.Rand("c10")
